@@ -17,6 +17,15 @@ func init() {
 		Mutant{Name: "c20-writer-skips-default-for-not-null", Property: "C20", Rule: "C20.default-agree", Edits: []Edit{{"migrator/migrator.go",
 			"\tif field.HasDefaultValue && (field.DefaultValueInterface != nil || field.DefaultValue != \"\") {", "\tif field.HasDefaultValue && !field.NotNull && (field.DefaultValueInterface != nil || field.DefaultValue != \"\") {"}}},
 
+		Mutant{Name: "c07-relation-phase-writes-field-meta", Property: "C07", Rule: "C07.field-meta", Edits: []Edit{{"schema/relationship.go",
+			"func (schema *Schema) parseRelation(field *Field) *Relationship {\n\tvar (", "func (schema *Schema) parseRelation(field *Field) *Relationship {\n\tfield.IgnoreMigration = field.IgnoreMigration || field.Comment == \"-\"\n\tvar ("}},
+			Note: "parseRelation runs after the schema was published"},
+		Mutant{Name: "c07-autoincrement-flags-set-after-publication", Property: "C07", Rule: "C07.field-meta", Edits: []Edit{
+			{"schema/schema.go", "\t\t\t\tfield.HasDefaultValue = true\n\t\t\t\tfield.AutoIncrement = true\n", ""},
+			{"schema/schema.go", "\tif _, embedded := schema.cacheStore.Load(embeddedCacheKey); !embedded {\n\t\tfor _, field := range schema.Fields {", "\tif pf := schema.PrioritizedPrimaryField; pf != nil && (pf.GORMDataType == Int || pf.GORMDataType == Uint) {\n\t\tif _, ok := pf.TagSettings[\"AUTOINCREMENT\"]; !ok {\n\t\t\tpf.HasDefaultValue = true\n\t\t\tpf.AutoIncrement = true\n\t\t}\n\t}\n\tif _, embedded := schema.cacheStore.Load(embeddedCacheKey); !embedded {\n\t\tfor _, field := range schema.Fields {"}}},
+		Mutant{Name: "n27-autoincrement-flags-in-helper-before-publication", Property: "*", Rule: "NEUTRAL", Edits: []Edit{
+			{"schema/schema.go", "\t\t\t\tfield.HasDefaultValue = true\n\t\t\t\tfield.AutoIncrement = true\n", "\t\t\t\tmarkAutoIncrement(field)\n"},
+			{"schema/schema.go", "// Parse get data type from dialector\n", "func markAutoIncrement(field *Field) {\n\tfield.HasDefaultValue = true\n\tfield.AutoIncrement = true\n}\n\n// Parse get data type from dialector\n"}}},
 		Mutant{Name: "n24-dry-run-guard-through-predicate", Property: "*", Rule: "NEUTRAL", Edits: []Edit{
 			{"callbacks/raw.go", "\tif db.Error == nil && !db.DryRun {", "\tif shouldSend(db) {"},
 			{"callbacks/raw.go", "func RawExec(db *gorm.DB) {", "func shouldSend(db *gorm.DB) bool { return db.Error == nil && !db.DryRun }\n\nfunc RawExec(db *gorm.DB) {"}}},
